@@ -191,12 +191,16 @@ var solvers = []solverSpec{
 // RunSolvers races the portfolio on one query. If all is true every solver is run to completion
 // and a disagreement (unsat vs sat) is reported as status "inconsistent".
 func RunSolvers(query string, wantModel bool, timeoutSec int, all bool, only []string) SolverResult {
+	return RunSolversCtx(context.Background(), query, wantModel, timeoutSec, all, only)
+}
+
+func RunSolversCtx(parent context.Context, query string, wantModel bool, timeoutSec int, all bool, only []string) SolverResult {
 	dir, err := os.MkdirTemp("", "kvq")
 	if err != nil {
 		return SolverResult{Status: "error", Output: err.Error()}
 	}
 	defer os.RemoveAll(dir)
-	ctx, cancel := context.WithTimeout(context.Background(), time.Duration(timeoutSec+5)*time.Second)
+	ctx, cancel := context.WithTimeout(parent, time.Duration(timeoutSec+5)*time.Second)
 	defer cancel()
 	type res struct {
 		r SolverResult
